@@ -25,7 +25,7 @@ def one(patch, props):
     out = os.path.join(ROOT, name + ".out")
     sh("git -C /repo worktree remove --force %s; rm -rf %s %s %s" % (wt, wt, work, out))
     os.makedirs(ROOT, exist_ok=True)
-    r = sh("git -C /repo worktree add --detach %s HEAD && git -C %s apply %s" % (wt, wt, os.path.abspath(patch)))
+    r = sh("git -C /repo worktree add --detach %s HEAD && cp /repo/Cargo.lock %s/ && git -C %s apply %s" % (wt, wt, wt, os.path.abspath(patch)))
     res = {"patch": patch, "applied": r.returncode == 0, "checks": {}}
     if r.returncode == 0:
         env = dict(os.environ, ENTRAIT_REPO=wt, VERIF_WORK=work, VERIF_OUT=out)
